@@ -35,6 +35,7 @@ def ScriptOk : Script → Prop
   | .unsafeLeaf _ k => ScriptOk k
   | .print args k => ValsOk args ∧ ScriptOk k
   | .printf _ args k => ValsOk args ∧ ScriptOk k
+  | .indep k => ScriptOk k
   | .panic payload => ValOk payload
 end
 
